@@ -153,8 +153,10 @@ def jobs(tier):
     pairs = [("multicast", "write_child"), ("node_address", "write_parent"), ("multicast_level", "multicast"),
              ("write_self", "multicast_level"), ("multicast_level", "write_parent"), ("write_parent", "node_address"),
              ("multicast_level", "node_address"), ("node_address", "multicast_level"), ("node_address", "node_address")]
-    if tier == "thorough":
-        pairs = [(a, b) for a in NET_OPS for b in NET_OPS]
+    if tier == "thorough":  # the cheap first calls x every second call; update/write first calls x the state-changing second calls
+        light = ("multicast", "node_address", "multicast_level", "write_self")
+        pairs = [(a, b) for a in light for b in NET_OPS] + [(a, b) for a in NET_OPS if a not in light
+                                                             for b in ("node_address", "multicast_level", "multicast")]
     for a, b in pairs:
         out.append(Job("two-calls", h_history, dict(role="net", lvl=2, ops=[a, b], n=25, ack_arrives=False), cost=60, shards=4))
     return out
@@ -167,7 +169,7 @@ META = {
                         "check_connection, send, write, multicast); the master's update(); every address digit, type, content, "
                         "received frame (10 symbolic bytes) symbolic; one symbolic outcome per transmitted packet; a NETWORK_ACK / "
                         "lookup answer injected at a symbolic clock look or never; 6 two-call histories",
-               "thorough": "levels 0..4, all 9x9 two-call histories of a network node"},
+               "thorough": "levels 0..4, 51 two-call histories of a network node"},
     "outside": ["histories deeper than 2", "renew_address() with responders (co-simulated in C17, which asserts the same "
                 "post-condition)", "timing jitter: the clock tick is a constant 5 ms"],
     "assumptions": ["one outcome per transmitted packet (all its automatic and forced retries share it)",
